@@ -78,8 +78,8 @@ FLOAT_TEXTS = ["0.0", "1.0", "0.5", "1.5", "0.1", "3.14159", "16777217.0", "1677
 @st.composite
 def use(draw):
     kind = draw(st.sampled_from(["ann", "ann", "ann", "ann_global", "unann", "unann_any", "unann_any", "unann_global", "arith_typed", "arith_untyped",
-                                 "param", "field", "elem", "float_ctx", "float", "char", "char", "string"]))
-    if kind in ("ann", "ann_global", "arith_typed", "param", "field", "elem"):
+                                 "param", "field", "elem", "float_ctx", "float", "char", "char", "string", "ann_distinct", "ann_distinct", "ann_optional", "unann_paren_any", "unann_assign_any", "unann_array_any"]))
+    if kind in ("ann", "ann_global", "arith_typed", "param", "field", "elem", "ann_distinct", "ann_optional"):
         sp, v = draw(int_spelling())
         t = draw(st.sampled_from(INTS))
         if draw(st.integers(0, 2)) == 0:
@@ -89,7 +89,7 @@ def use(draw):
             if v >= 2**64:
                 sp = str(v)
         return {"k": kind, "t": t.name, "sp": sp, "v": v}
-    if kind in ("unann", "unann_any", "unann_global", "arith_untyped"):
+    if kind in ("unann", "unann_any", "unann_global", "arith_untyped", "unann_paren_any", "unann_assign_any", "unann_array_any"):
         sp, v = draw(int_spelling())
         return {"k": kind, "sp": sp, "v": v}
     if kind == "float_ctx":
@@ -202,7 +202,7 @@ def fbits(v, name):
 def verdict(u):
     """('accept', expected stdout) | ('reject', None) | ('either', expected stdout if accepted)"""
     k = u["k"]
-    if k in ("ann", "ann_global", "param", "field", "elem"):
+    if k in ("ann", "ann_global", "param", "field", "elem", "ann_distinct", "ann_optional"):
         t = INT_BY_NAME[u["t"]]
         if u["v"] >= 2**64 or u["v"] > t.max:
             return "reject", None
@@ -216,6 +216,12 @@ def verdict(u):
         if u["v"] >= 2**64:
             return "reject", None
         return "either", f"{to_i64(u['v'])}\n"
+    if k in ("unann_paren_any", "unann_assign_any", "unann_array_any"):
+        # the same defaulting, with the literal in parentheses / assigned to an untyped variable later / inside an
+        # anonymous array literal
+        if u["v"] >= 2**64:
+            return "reject", None
+        return "either", f"{u['v']}\n"
     if k == "unann_any":
         # printed through `any` (core.println), so no later use can influence the literal's type:
         # this observes the defaulting rules alone
@@ -263,6 +269,13 @@ def use_lines(i, u):
     if k == "ann":
         t = INT_BY_NAME[u["t"]]
         return None, f"    {{ x : {t.name} = {sp}; {pr(t, 'x')} }};", None
+    if k == "ann_distinct":
+        # the integer type is reached through a distinct wrapper: the literal still has to fit
+        t = INT_BY_NAME[u["t"]]
+        return f"Dt{i} :: distinct {t.name};", f"    {{ x : Dt{i} = {sp}; y : {t.name} = {t.name}.(x); {pr(t, 'y')} }};", None
+    if k == "ann_optional":
+        t = INT_BY_NAME[u["t"]]
+        return None, f"    {{ o : ?{t.name} = {sp}; x : {t.name} = #unwrap(o); {pr(t, 'x')} }};", None
     if k == "ann_global":
         t = INT_BY_NAME[u["t"]]
         return f"g{i} : {t.name} : {sp};", f"    {{ {pr(t, f'g{i}')} }};", None
@@ -281,6 +294,12 @@ def use_lines(i, u):
     if k == "unann":
         cast = "i64.(x)" if u["v"] < 2**63 else "i64.(u64.(x))"
         return None, f'    {{ x := {sp}; printf("%ld\\n", {cast}); }};', None
+    if k == "unann_paren_any":
+        return None, f"    {{ x := ({sp}); core.println(x); }};", None
+    if k == "unann_assign_any":
+        return None, f"    {{ x := 100; x = {sp}; core.println(x); }};", None
+    if k == "unann_array_any":
+        return None, f"    {{ a := .[1, {sp}]; core.println(a[1]); }};", None
     if k == "unann_any":
         return None, f"    {{ x := {sp}; core.println(x); }};", None
     if k == "unann_global":
@@ -305,7 +324,7 @@ def build(uses, only=None):
     globs, helpers, main = [], [], []
     line_of = {}
     header = PRELUDE.replace("S :: struct { f: T_FIELD };\n", "")
-    if any(u["k"] == "unann_any" and (only is None or i in only) for i, u in enumerate(uses)):
+    if any(u["k"].endswith("_any") and (only is None or i in only) for i, u in enumerate(uses)):
         header = 'core :: #mod("core");\n' + header
     for i, u in enumerate(uses):
         if only is not None and i not in only:
@@ -360,7 +379,7 @@ def shape(u):
     k = u["k"]
     if k in ("ann", "ann_global", "param", "field", "elem", "arith_typed"):
         return f"{k}:{u['t']}"
-    if k in ("unann", "unann_any", "unann_global", "arith_untyped"):
+    if k in ("unann", "unann_any", "unann_global", "arith_untyped", "unann_paren_any", "unann_assign_any", "unann_array_any"):
         v = u["v"]
         band = "<=i32max" if v < 2**31 else "<=u32max" if v < 2**32 else "<=i64max" if v < 2**63 else "<=u64max" if v < 2**64 else ">u64max"
         return f"{k}:{band}"
